@@ -358,6 +358,13 @@ def build_catalog(ck, wd):
         g2, c2 = models.write_model(m, os.path.join(gd, "r%d" % k), stem="r%d" % k)
         G.append(("random-%s-%d+cond" % (m["info"]["topology"], k), "G %s %s" % (g2, c2)))
         if k == 0: G.append(("random-%s-%d" % (m["info"]["topology"], k), "G %s -" % g2))
+    # same geometry files with other conductivities (set_conductivity in place + finalize must give these), a .geom with a bad header
+    cb = os.path.join(gd, "Head1_B.cond"); open(cb, "w").write("# Properties Description 1.0 (Conductivities)\n\nAir         0.0\nScalp       1.2\nBrain       0.5\nSkull       0.02\n")
+    G.append(("Head1+condB", "G %s/Head1.geom %s" % (H1, cb)))
+    ci = os.path.join(gd, "imm_B.cond"); open(ci, "w").write("# Properties Description 1.0 (Conductivities)\n\nD0 1.0\nD1 0.3\nD2 0.0\nD3 2.0\nAir 0.0\n")
+    G.append(("immersed+condB", "G %s %s" % (g, ci)))
+    bh = os.path.join(gd, "badheader.geom"); open(bh, "w").write("# Domain Descrption 9.9\nInterfaces 0\n")
+    G.append(("bad-header.geom", "G %s %s/Head1.cond" % (bh, H1)))
     # sensors
     sd = os.path.join(gd, "sens"); os.makedirs(sd, exist_ok=True)
     def wf(name, txt):
@@ -478,9 +485,13 @@ def check_objects(ck, hb, quick, replay):
     rng = ck.rng
     nG, nS, nM = len(cat["G"]), len(cat["S"]), len(cat["M"])
     small = [i for i, w in enumerate(Gw) if w[1] <= 200]          # HeadMat only where it is cheap
+    SAMEGEO = {0: 14, 14: 0, 2: 15, 15: 2}                        # entries sharing the geometry file, other conductivities
     # ---- histories
     gseqs = [[(0, 0), (0, 0)], [(0, 0), (0, 0), (1, 0)], [(0, 2), (0, 3)], [(0, 0), (1, 0), (1, 0), (0, 4), (0, 0), (1, 0)],     # witnesses first
-             [(0, 0), (3, 0)], [(0, 0), (1, 0), (3, 0), (3, 0), (1, 0)], [(0, 2), (3, 0)], [(0, 1), (3, 0)]]
+             [(0, 0), (3, 0)], [(0, 0), (1, 0), (3, 0), (3, 0), (1, 0)], [(0, 2), (3, 0)], [(0, 1), (3, 0)],
+             [(0, 0), (1, 0), (5, 14), (1, 0), (5, 0), (1, 0)], [(0, 2), (5, 15), (1, 0)], [(0, 15), (5, 2), (1, 0)],      # conductivities changed in place
+             [(0, 9), (4, 0), (0, 0), (1, 0)], [(4, 0), (0, 2)], [(0, 0), (4, 0), (0, 14), (1, 0)],                          # programmatic construction, then load
+             [(0, 16), (0, 0)], [(0, 7), (0, 0), (0, 16), (0, 7), (0, 0), (1, 0)]]                                          # failed .geom loads, then a valid one
     sseqs = [(0, [0, 0]), (0, [0, 2]), (1, [9, 9])]
     mseqs = [[(0, 0), (0, 1)], [(0, 0), (1, 0), (0, 0)], [(0, 0), (1, 0), (1, 0)],
              [(0, 13), (0, 9)], [(0, 9), (0, 9)], [(0, 10), (0, 9), (0, 11), (0, 12)]]       # tetra then seam; seam twice; degenerate inputs in a row
@@ -499,6 +510,8 @@ def check_objects(ck, hb, quick, replay):
                 if h and rng.random() < 0.2 and any(o == 0 and i in small for o, i in h[-1:]): h.append((1, 0))
                 elif h and rng.random() < 0.1: h.append((2, 0))
                 elif h and rng.random() < 0.15: h.append((3, 0))
+                elif h and h[-1][0] in (0, 5) and h[-1][1] in SAMEGEO and rng.random() < 0.3: h.append((5, SAMEGEO[h[-1][1]]))
+                elif rng.random() < 0.08: h.append((4, 0)); h.append((0, rng.choice(small)))
                 else: h.append((0, rng.choice(small) if rng.random() < 0.7 else rng.randrange(nG)))
             gseqs.append(h)
         for _ in range(40 if quick else 400):
@@ -589,20 +602,35 @@ def check_objects(ck, hb, quick, replay):
     # ---- geometry
     for h, m, o in zip(gseqs, mg, hg):
         stats["geometry"]["seqs"] += 1; stats["geometry"]["ops"] += len(h)
-        names = "; ".join(("load " + cat["G"][i][0]) if op == 0 else ["", "HeadMat", "DipSourceMat", "finalize()"][op] for op, i in h)
+        names = "; ".join(("load " + cat["G"][i][0]) if op == 0 else (["", "HeadMat", "DipSourceMat", "finalize()", "programmatic construction"][op] if op < 5 else "set_conductivity(" + cat["G"][i][0] + ")+finalize()") for op, i in h)
         rp = dict(kind="object-history", machine="geometry", cases=[dict(machine="geometry", ops=[list(x) for x in h])], history=names, replay_cmd="./check C17 --replay <this file>")
         mt = split_lenpref([int(t) for t in m.split()]); ht = split_lenpref(ints(o))
         if ints(o) is None:
             ck.violation("geometry: crash in history " + names, "the harness crashed (%s) while running the history in one process: %s; every single operation runs in a fresh process" % (o, names), rp); continue
         for q, (op, i) in enumerate(h):
-            on = ["load", "HeadMat", "DipSourceMat", "finalize"][op]; stats["geometry"]["op"][on] = stats["geometry"]["op"].get(on, 0) + 1
-            if q < len(ht): stats["geometry"]["status"][str(ht[q][0]) if op in (0, 3) else "assembled"] = stats["geometry"]["status"].get(str(ht[q][0]) if op in (0, 3) else "assembled", 0) + 1
+            on = ["load", "HeadMat", "DipSourceMat", "finalize", "programmatic", "set_conductivity"][op]; stats["geometry"]["op"][on] = stats["geometry"]["op"].get(on, 0) + 1
+            if q < len(ht): stats["geometry"]["status"][str(ht[q][0]) if op in (0, 3, 5) else "assembled"] = stats["geometry"]["status"].get(str(ht[q][0]) if op in (0, 3, 5) else "assembled", 0) + 1
         diff = [q for q in range(len(h)) if q >= len(ht) or q >= len(mt) or ht[q] != mt[q]]
         if diff:
             q = diff[0]; a = ht[q] if q < len(ht) else None; b = mt[q] if q < len(mt) else None
             fields = [GOBS[k] + ": %s vs %s" % (a[k], b[k]) for k in range(min(len(a or []), len(b or []), 10)) if a[k] != b[k]]
             ck.violation("geometry: %s differs after history (%s)" % (fields[0].split(":")[0] if fields else "observation", names if len(h) <= 3 else "%d operations" % len(h)),
                          "operation %d of the history [%s] on one Geometry object gives %s, the same operation on a fresh object gives %s (%s)" % (q, names, a, b, ", ".join(fields)), rp)
+    # ---- reader registry (coq/Geom/ReaderRegistry.v): statuses of the .geom loads of every history, one clone per load
+    AFTER_OPEN = {"broken-mesh-ref", "bad-header.geom"}
+    rlines = []; rexp = []
+    for h, o in zip(gseqs, hg):
+        ht = split_lenpref(ints(o)) if ints(o) else []
+        ev = [(q, i) for q, (op, i) in enumerate(h) if op == 0 and cat["G"][i][1].startswith("G ") and cat["G"][i][1].split()[1].endswith(".geom") and q < len(ht)]
+        w = [7, 1, 1, len(ev)]
+        for q, i in ev: w += [0, 0 if Gw[i][0] == 0 else 2 if cat["G"][i][0] in AFTER_OPEN else 1, Gw[i][0]]
+        rlines.append("c17 " + " ".join(map(str, w))); rexp.append([ht[q][0] for q, i in ev])
+    rmo = core.run_model(rlines) if rlines else []
+    stats["registry"] = dict(histories=len(rlines), loads=sum(len(x) for x in rexp))
+    for h, m, e in zip(gseqs, rmo, rexp):
+        if [int(t) for t in m.split()] != e:
+            ck.violation("registry: status of a .geom load depends on earlier loads", "statuses of the .geom loads of one process %s differ from those of fresh readers %s (a reader object is reused across loads?)" % (e, m),
+                         dict(kind="object-history", machine="geometry", cases=[dict(machine="geometry", ops=[list(x) for x in h])], replay_cmd="./check C17 --replay <this file>"))
     # ---- sensors
     for (ge, h), m, o in zip(sseqs, ms, hs):
         stats["sensors"]["seqs"] += 1; stats["sensors"]["ops"] += len(h)
@@ -664,7 +692,7 @@ def check_objects(ck, hb, quick, replay):
                 stats["mesh"]["explained_by_known_finding"] += 1
     def dsc(m, c):
         if m == "compute": return "; ".join(COMPUTE[k] for k in c["ops"])
-        if m == "geometry": return "; ".join(("load " + cat["G"][i][0]) if op == 0 else ["", "HeadMat", "DipSourceMat", "finalize()"][op] for op, i in c["ops"])
+        if m == "geometry": return "; ".join(("load " + cat["G"][i][0]) if op == 0 else (["", "HeadMat", "DipSourceMat", "finalize()", "programmatic construction"][op] if op < 5 else "set_conductivity(" + cat["G"][i][0] + ")+finalize()") for op, i in c["ops"])
         if m == "sensors": return "; ".join("load " + cat["S"][i][0] for i in c["ops"])
         if m == "mesh": return "; ".join(("load " + cat["M"][i][0]) if op == 0 else "SurfSourceMat(Head1,mesh)" for op, i in c["ops"])
         return "; ".join("%s::load %s" % (KIND[c["kind"]], cat["L"][i][0]) for i in c["ops"])
